@@ -56,7 +56,7 @@ theorem safe_jAlloc {s : St} {j : Nat} (c : Content) (level : Nat) (h : Safe s) 
   have hb := jobOk_alloc (c := c) (h.jobs j hj) (hnl j hj)
   have hlt : ∀ k, k < s.nJob → ∀ f ∈ outNo (s.job k), f < s.nextFile := fun k hk => (h.jobs k hk).outlt
   apply safe_setJob (safe_alloc c h hnl)
-  · obtain ⟨h0, hn0, hn0b, hn1, hn2, h1, h2, h3, h4, h5, h6, h7, h8, h9, h10, hrec, hnf, hrd, h11, h12, h13, h14⟩ := hb
+  · obtain ⟨h0, hn0, hn0b, hn0c, hn1, hn2, h1, h2, h3, h4, h5, h6, h7, h8, h9, h10, hrec, hnf, hrd, h11, h12, h13, h14⟩ := hb
     rcases hpc with ⟨hpc, hk⟩ | hpc <;>
     · simp only [hpc] at *
       constructor <;>
@@ -78,7 +78,7 @@ theorem safe_jStartCompact {cfg : Cfg} {s : St} {j : Nat} (h : Safe s) (hj : j <
   have hb0 := h.jobs j hj
   have hcur := h.ver_bound.1
   apply safe_setJob h1
-  · obtain ⟨h0, hn0, hn0b, hn1, hn2, h1, h2, h3, h4, h5, h6, h7, h8, h9, h10, hrec, hnf, hrd, h11, h12, h13, h14⟩ := hb0
+  · obtain ⟨h0, hn0, hn0b, hn0c, hn1, hn2, h1, h2, h3, h4, h5, h6, h7, h8, h9, h10, hrec, hnf, hrd, h11, h12, h13, h14⟩ := hb0
     cases hp : pickL0 (s.ver s.cur) cfg.threshold with
     | none =>
       simp only [hpc] at *
@@ -109,7 +109,7 @@ theorem safe_startRollup {s : St} {j : Nat} (h : Safe s) (hj : j < s.nJob) (hpc 
     (hk : (s.job j).kind = .rollupDone) :
     Safe (s.setJob j { s.job j with edit := { rollDel := (s.job j).payload.map (·.1) }, pc := .ready }) := by
   apply safe_setJob h
-  · obtain ⟨h0, hn0, hn0b, hn1, hn2, h1, h2, h3, h4, h5, h6, h7, h8, h9, h10, hrec, hnf, hrd, h11, h12, h13, h14⟩ := h.jobs j hj
+  · obtain ⟨h0, hn0, hn0b, hn0c, hn1, hn2, h1, h2, h3, h4, h5, h6, h7, h8, h9, h10, hrec, hnf, hrd, h11, h12, h13, h14⟩ := h.jobs j hj
     generalize s.job j = b at *
     obtain ⟨kind, pc, payload, snap, inputs, trivial, todoIn, out, edit, csnap, newVer, prev, prevZero, nfRead, dlist, live, todoDel⟩ := b
     simp only at hpc hk; subst hpc hk
@@ -125,7 +125,7 @@ theorem safe_jPicked {s : St} {j : Nat} (h : Safe s) (hj : j < s.nJob) (hpc : (s
     Safe (jPicked s j) := by
   unfold jPicked
   dsimp only
-  obtain ⟨h0, hn0, hn0b, hn1, hn2, h1, h2, h3, h4, h5, h6, h7, h8, h9, h10, hrec, hnf, hrd, h11, h12, h13, h14⟩ := h.jobs j hj
+  obtain ⟨h0, hn0, hn0b, hn0c, hn1, hn2, h1, h2, h3, h4, h5, h6, h7, h8, h9, h10, hrec, hnf, hrd, h11, h12, h13, h14⟩ := h.jobs j hj
   split
   · apply safe_setJob h
     · generalize s.job j = b at *
@@ -145,7 +145,7 @@ theorem safe_jRead {s : St} {j : Nat} (h : Safe s) (hj : j < s.nJob) (hpc : (s.j
   unfold jRead
   dsimp only
   have hb := h.jobs j hj
-  obtain ⟨h0, hn0, hn0b, hn1, hn2, h1, h2, h3, h4, h5, h6, h7, h8, h9, h10, hrec, hnf, hrd, h11, h12, h13, h14⟩ := hb
+  obtain ⟨h0, hn0, hn0b, hn0c, hn1, hn2, h1, h2, h3, h4, h5, h6, h7, h8, h9, h10, hrec, hnf, hrd, h11, h12, h13, h14⟩ := hb
   split
   next =>
     apply safe_setPc_plain h
@@ -178,7 +178,7 @@ theorem safe_jCreate {cfg : Cfg} {s : St} {j : Nat} (h : Safe s) (hj : j < s.nJo
   have h1 := safe_create (fs := outNo (s.job j)) h hb0.outlt
   have hb := jobOk_create (fs := outNo (s.job j)) hb0
   apply safe_setJob h1
-  · obtain ⟨h0, hn0, hn0b, hn1, hn2, h1, h2, h3, h4, h5, h6, h7, h8, h9, h10, hrec, hnf, hrd, h11, h12, h13, h14⟩ := hb
+  · obtain ⟨h0, hn0, hn0b, hn0c, hn1, hn2, h1, h2, h3, h4, h5, h6, h7, h8, h9, h10, hrec, hnf, hrd, h11, h12, h13, h14⟩ := hb
     generalize s.job j = b at *
     obtain ⟨kind, pc, payload, snap, inputs, trivial, todoIn, out, edit, csnap, newVer, prev, prevZero, nfRead, dlist, live, todoDel⟩ := b
     simp only at hpc; subst hpc
